@@ -3,6 +3,8 @@ package verifsim
 import (
 	"crypto"
 	"encoding/base64"
+	"encoding/json"
+	"flag"
 	"fmt"
 	"io"
 	"math/rand/v2"
@@ -18,6 +20,7 @@ import (
 	"github.com/cbeuw/Cloak/internal/server"
 	"github.com/cbeuw/Cloak/internal/server/usermanager"
 	"github.com/cbeuw/Cloak/internal/simsync"
+	"github.com/cbeuw/Cloak/internal/verifmain/ckclient"
 	"github.com/cbeuw/Cloak/verifsim/simnet"
 )
 
@@ -39,6 +42,7 @@ type SrvWorld struct {
 	Upstream map[string]*simnet.Listener
 	Redir    *simnet.Listener
 	Mgr      usermanager.UserManager
+	cleanups []func()
 }
 
 const (
@@ -126,6 +130,9 @@ func (w *SrvWorld) Cleanup() {
 	if w.DBDir != "" {
 		os.RemoveAll(w.DBDir)
 	}
+	for _, f := range w.cleanups {
+		f()
+	}
 }
 
 func genKeyPair(r *rand.Rand) (priv, pub []byte) {
@@ -162,7 +169,7 @@ type ClientParams struct {
 }
 
 // ClientConfig runs the real configuration path (RawConfig -> ProcessRawConfig).
-func (w *SrvWorld) ClientConfig(p ClientParams, rng *rand.Rand) (client.LocalConnConfig, client.RemoteConnConfig, client.AuthInfo, error) {
+func (w *SrvWorld) rawClientConfig(p ClientParams) client.RawConfig {
 	raw := client.RawConfig{ServerName: p.ServerName, ProxyMethod: p.Method, EncryptionMethod: p.Encryption, UID: p.UID, PublicKey: w.PubRaw,
 		NumConn: p.NumConn, LocalHost: "127.0.0.1", LocalPort: "1984", RemoteHost: "10.0.0.2", RemotePort: "443",
 		UDP: p.UDP, BrowserSig: p.Browser, Transport: p.Transport}
@@ -174,6 +181,71 @@ func (w *SrvWorld) ClientConfig(p ClientParams, rng *rand.Rand) (client.LocalCon
 		raw.CDNOriginHost = p.CDNOriginHost
 		raw.CDNWsUrlPath = p.CDNWsUrlPath
 	}
+	return raw
+}
+
+// CkClient is a running cmd/ck-client main() inside the simulation.
+type CkClient struct {
+	LocalAddr string
+	Listener  *simnet.Listener   // TCP mode, once main() has bound it
+	Sock      *simnet.PacketSock // UDP mode, once RouteUDP has bound it
+	Exit      string             // message of a log.Fatal, if main() ended that way
+	Dialer    *net.Dialer        // the dialer main() configured
+}
+
+// Ready: main() has bound its local side (or ended).
+func (k *CkClient) Ready() bool { return k.Listener != nil || k.Sock != nil || k.Exit != "" }
+
+// AwaitReady parks the calling harness task until Ready.
+func (k *CkClient) AwaitReady() {
+	for !k.Ready() {
+		Sleep(time.Millisecond)
+	}
+}
+
+// StartCkClient writes the configuration as a JSON file and runs the shipped
+// main() of cmd/ck-client on it (the importable copy made by the instrumenter:
+// net.Listen / net.ListenUDP / the net.Dialer / log.Fatal are hooked, nothing
+// else differs), with extra command-line arguments if given.
+func (w *SrvWorld) StartCkClient(c *Ctx, p ClientParams, args ...string) *CkClient {
+	raw := w.rawClientConfig(p)
+	k := &CkClient{LocalAddr: net.JoinHostPort(raw.LocalHost, raw.LocalPort)}
+	dir := scratchDir()
+	w.cleanups = append(w.cleanups, func() { os.RemoveAll(dir) })
+	cfg := filepath.Join(dir, "ckclient.json")
+	b, _ := json.Marshal(raw)
+	os.WriteFile(cfg, b, 0o600)
+	simsync.HookDialer = func(nd *net.Dialer) simsync.Dialer {
+		k.Dialer = nd
+		return &simnet.Dialer{Net: c.Net, LocalIP: "10.0.6.1", Tag: "front", KeepAlive: nd.KeepAlive}
+	}
+	simsync.HookListen = func(network, addr string) (net.Listener, error) {
+		k.Listener = c.Net.Listen(addr)
+		return k.Listener, nil
+	}
+	simsync.HookListenUDP = func(network string, la *net.UDPAddr) (net.PacketConn, error) {
+		k.Sock = c.Net.NewPacketSock(la.String())
+		return k.Sock, nil
+	}
+	simsync.Go("h:ck-client", func() {
+		defer func() {
+			if r := recover(); r != nil {
+				fe, ok := r.(simsync.FatalExit)
+				if !ok {
+					panic(r)
+				}
+				k.Exit = fe.Msg
+			}
+		}()
+		os.Args = append([]string{"ck-client", "-c", cfg, "-verbosity", "panic"}, args...)
+		flag.CommandLine = flag.NewFlagSet("ck-client", flag.ContinueOnError)
+		ckclient.Main()
+	})
+	return k
+}
+
+func (w *SrvWorld) ClientConfig(p ClientParams, rng *rand.Rand) (client.LocalConnConfig, client.RemoteConnConfig, client.AuthInfo, error) {
+	raw := w.rawClientConfig(p)
 	skew := time.Duration(p.SkewMS) * time.Millisecond
 	ws := common.WorldState{Rand: rngReader{rng}, Now: func() time.Time { return time.Now().Add(skew) }}
 	l, r, a, err := raw.ProcessRawConfig(ws)
